@@ -202,6 +202,8 @@ UNSUPPORTED: t.Dict[str, t.Callable[[], t.Any]] = {
     'enum-non-data-values': lambda: _ObjE,
     'Annotated-unknown-metadata': lambda: t.Annotated[int, 'some metadata'],
     'Tagged-non-union': lambda: _tagged_non_union(),
+    'Tagged-member-without-tag': lambda: _tagged_missing(False),
+    'Tagged-optional-union': lambda: _tagged_missing(True),
     'Pattern[int]': lambda: t.Pattern[int],   # type: ignore
     'object': lambda: object,
     'plain-class': lambda: _Plain,
@@ -214,6 +216,19 @@ UNSUPPORTED: t.Dict[str, t.Callable[[], t.Any]] = {
 def _tagged_non_union():
     from pane.annotations import Tagged
     return t.Annotated[int, Tagged('x')]
+
+
+def _tagged_missing(optional: bool) -> t.Any:
+    """A tagged union one of whose members has no such tag (another dataclass / None): not a well-formed tagged union."""
+    import pane
+    from pane.annotations import Tagged
+    if 'tagged-missing' not in _CLS_CACHE:
+        Cat = type('Cat', (pane.PaneBase,), {'__annotations__': {'n': int, 'kind': t.Literal['cat']}, 'kind': 'cat'})
+        Dog = type('Dog', (pane.PaneBase,), {'__annotations__': {'n': int, 'kind': t.Literal['dog']}, 'kind': 'dog'})
+        Rock = type('Rock', (pane.PaneBase,), {'__annotations__': {'n': int}})
+        _CLS_CACHE['tagged-missing'] = (Cat, Dog, Rock)
+    (Cat, Dog, Rock) = _CLS_CACHE['tagged-missing']
+    return t.Annotated[t.Optional[t.Union[Cat, Dog]], Tagged('kind')] if optional else t.Annotated[t.Union[Cat, Rock], Tagged('kind')]
 
 
 WRAPPERS = ['top', 'List', 'Dict-value', 'Optional', 'Tuple-slot', 'struct-literal', 'tuple-literal', 'dataclass-field',
